@@ -43,7 +43,8 @@ MANIFEST = dict(
          "103 py_statements entries for C and C++ and 27 typemaps): one address per parse unit, goto-fail/fail-label "
          "consistency, every acquired resource released on success and failure paths or handed on, object_created entries "
          "create the object, the returned object of an entry that passes a C++ local is built from that local, parse-unit / build-unit / PY_ctor arities, every unit has a value class. "
-         "(3) List-helper model (Props/C03Lists.lean): every item converted in order, the first rejected item gives TypeError "
+         "(3) List-helper model (Props/C03Lists.lean): every item converted in order, acceptance depends on the item classes "
+         "only (every value, -1 / 0 / extremes included, converts unchanged), the first rejected item gives TypeError "
          "with its index and leaves nothing allocated, fill/broadcast, to_PyList round trip, char** items. "
          "Ties on every run: emitted format string, keyword list, case call lists (count and referenced parameter), switch / "
          "SH_nargs presence, PyDict_Size operand, dispatch windows and callee order, return shape, returned items, "
@@ -56,7 +57,8 @@ MANIFEST = dict(
          "shape n parameters x first default position, in overload sets, as functions and methods) and seeded random "
          "libraries; kinds: scalars, bool, char*/std::string, enum, class and struct (as class) arguments and results, "
          "list-mode arrays with implied sizes, char**, std::vector in/out/result, multi-extent +dimension out arguments and "
-         "pointer results, const/non-const pointer overloads, overloads distinguished by list/vector element type, defaulted "
+         "pointer results, hidden intent(out) arguments (also sizing a +dimension result), const/non-const pointer overloads "
+         "(int* and char*) so that a wrong C++ overload choice shows in the trace, list / vector elements -1, 0, INT_MIN/MAX, overloads distinguished by list/vector element type, defaulted "
          "and overloaded constructors, the generated struct constructor; every supplied subset x every split, wrongly typed / "
          "surplus / unknown / duplicate / missing arguments, bad list items at every index; expectations computed from the "
          "declaration (trace of received values incl. the library's defaults, result-then-out tuple, sizes from the dimension "
@@ -80,6 +82,8 @@ THEOREMS = {
         "Shroud.PyList.getList_bad_item",
         "Shroud.PyList.getList_not_iterable",
         "Shroud.PyList.getList_total",
+        "Shroud.PyList.getList_every_value_converts",
+        "Shroud.PyList.getList_verdict_value_independent",
         "Shroud.PyList.fill_seq_in_order",
         "Shroud.PyList.fill_bad_item",
         "Shroud.PyList.fill_broadcast",
